@@ -346,7 +346,8 @@ def explore_bounded(case, bound=2, max_runs=400, budget_s=600):
         os.makedirs(root0)
         jp = os.path.join(sc, 'build.json')
         with open(jp, 'w') as f:
-            json.dump({'job': 'build', 'backend': b, 'root': root0, 'items': case['s0']}, f)
+            json.dump({'job': 'build', 'backend': b, 'root': root0, 'items': case['s0'],
+                       'cleared': bool(case.get('cleared'))}, f)
         subprocess.run([PY, '-m', 'kv.concmon', jp], env=child_env(), cwd=sc, timeout=60,
                        stdout=subprocess.PIPE, stderr=subprocess.STDOUT)
         import shutil
@@ -414,6 +415,7 @@ DFS_PAIRS = [
     ('writer-vs-writer', [[['set', 'w0', 'a-1']], [['set', 'w1', 'b-1']]]),
     ('overwrite-vs-in', [[['set', 'k', 'k-1']], [['in', 'k']]]),
     ('writer-vs-opener', [[['set', 'n1', 'n-1']], [['open', 0]]]),
+    ('writer-vs-cached-opener', [[['set', 'n1', 'n-1']], [['open', 1]]]),
 ]
 
 
@@ -425,7 +427,8 @@ def dfs_cases():
                 continue
             wl = {'overwrite-vs-get': 'overwrite-reader', 'overwrite-vs-items': 'overwrite-reader',
                   'overwrite-vs-in': 'overwrite-reader', 'new-vs-keys': 'writer-reader', 'new-vs-load': 'writer-reader',
-                  'writer-vs-writer': 'writer-writer', 'writer-vs-opener': 'writer-opener'}[name]
+                  'writer-vs-writer': 'writer-writer', 'writer-vs-opener': 'writer-opener',
+                  'writer-vs-cached-opener': 'writer-opener'}[name]
             out.append({'backend': dict(b), 'workload': wl, 'pair': name, 's0': [['base', 'b0'], ['k', 'k0']],
                         'jobs': [{'ops': j} for j in jobs], 'policy': 'dfs', 'free': False, 'seed': 0})
     return out
@@ -777,6 +780,25 @@ def run_shard(prop, tier, seed, shard, nshards, opts):
         for v in viol:
             if len(res['violations']) < 200:
                 res['violations'].append(v)
+    FILE_CFGS = [c for c in CONFIGS if c['kind'] == 'file']
+    if dfs == [] and 8 <= shard < 8 + 2 * len(FILE_CFGS):
+        # quick tier too: every schedule with <=2 preemptions of "one write vs. one process merely opening the archive
+        # (cached=True, so it must not write)" on each single-file configuration - once on an archive that holds
+        # entries, once on one that exists but was emptied by clear()
+        j = shard - 8
+        b = dict(FILE_CFGS[j // 2])
+        cleared = bool(j % 2)
+        case = {'backend': b, 'workload': 'writer-opener', 'pair': 'writer-vs-cached-opener',
+                's0': [] if cleared else [['base', 'b0'], ['k', 'k0']], 'cleared': cleared,
+                'jobs': [{'ops': [['set', 'n1', 'n-1']]}, {'ops': [['open', 1]]}], 'policy': 'dfs', 'free': False, 'seed': 0}
+        viol, cnt, exhausted = explore_bounded(case, bound=2, max_runs=120, budget_s=40)
+        res['cases'] += cnt.get('c14_dfs_schedules', 0)
+        for k, v in cnt.items():
+            res['counters'][k] = res['counters'].get(k, 0) + v
+        res['notes'].append('dfs/%s/writer-vs-cached-opener%s: %d distinct schedules with <=2 preemptions, %s' % (
+            backend_name(b), '/cleared' if cleared else '', cnt.get('c14_dfs_distinct_schedules', 0),
+            'exhausted' if exhausted else 'NOT exhausted'))
+        res['violations'].extend(viol[:10])
     IDLE_OPS = [['in', 'k'], ['get', 'k'], ['len'], ['keys'], ['items'], ['load'], ['in', 'absent'], ['get', 'base']]
     if shard < len(IDLE_OPS):
         # directed: a reader that performed one read of an sqlite table archive (each read path in turn, on a key
